@@ -127,6 +127,49 @@ def check_mapped(case):
             raise Violation('text-iso', case, 'text %r does not carry %s' % (txt, dt.isoformat()), tags)
 
 
+def odd_spellings(name):
+    out = []
+    for v in (name.upper(), name.lower(), name.swapcase(), name.title(), ' ' + name, name + ' '):
+        if v != name and v not in out:
+            out.append(v)
+    return out
+
+
+def check_after_odd_reads(case):
+    """case = {'odd_reads': zone name, 'fmt': 'zinc'|'json'}.  Texts that spell the zone name differently (other letter
+    case, stray blank) are offered to the reader first - whether it takes or refuses them is not the point - then the zone
+    must still be written under its own name and read back to itself, in summer and in winter, and the two maps must
+    still be inverse bijections."""
+    import hszinc
+    name, fmt = case['odd_reads'], case['fmt']
+    mode = hszinc.MODE_ZINC if fmt == 'zinc' else hszinc.MODE_JSON
+    for sp in odd_spellings(name):
+        for stamp in ('2021-01-15T12:00:00+00:00', '2021-07-15T12:00:00Z'):
+            txt = '%s %s' % (stamp, sp)
+            try:
+                hszinc.parse_scalar(('t:' + txt) if fmt == 'json' else txt, mode=mode)
+            except Exception:      # noqa - an unknown spelling may be refused in any way
+                pass
+            try:
+                hszinc.parse('ver:"2.0"\nts\n%s\n' % txt, mode=hszinc.MODE_ZINC)
+            except Exception:      # noqa
+                pass
+    n = 0
+    for utc in ('2021-01-15T12:00:00', '2021-07-15T12:00:00'):
+        for grid in (False, True):
+            c = {'zone': name, 'utc': utc, 'us': 0, 'fmt': fmt, 'grid': grid}
+            try:
+                check_mapped(c)
+            except Violation as v:
+                raise Violation(v.stage, dict(case, then=c), 'after reads of differently spelled zone names: ' + v.detail, v.tags)
+            n += 1
+    try:
+        check_map_laws()
+    except Violation as v:
+        raise Violation(v.stage, case, 'after reads of differently spelled zone names: ' + v.detail, v.tags)
+    return n
+
+
 def check_map_laws():
     import pytz
     from hszinc import zoneinfo
@@ -239,6 +282,7 @@ def plan(tier, seed, excl):
     t.append(('other-alias', {}))
     t += [('same-instant', {'shard': i, 'of': 4}) for i in range(4)]
     t.append(('unmapped-names', {}))
+    t += [('odd-reads', {'zones': names[i::4][::(6 if q else 1)]}) for i in range(4)]
     t += [('random', {'shard': i, 'n': 1500 if q else 40000}) for i in range(6)]
     return t
 
@@ -325,6 +369,17 @@ def run(part, args, env):
             acc.sample({'unmapped_official_names': unmapped[:8], 'count': len(unmapped)})
         except Violation as v:
             acc.violation(v)
+    elif part == 'odd-reads':
+        for i, z in enumerate(args['zones']):
+            case = {'odd_reads': z, 'fmt': 'json' if i % 2 else 'zinc'}
+            try:
+                n = check_after_odd_reads(case)
+                acc.case(case, True, labels=('odd-reads:' + case['fmt'],))
+                acc.evals += n
+                if i % 20 == 0:
+                    acc.sample(case)
+            except Violation as v:
+                acc.violation(v)
     elif part == 'maplaws':
         try:
             k = check_map_laws()
@@ -422,7 +477,9 @@ def run(part, args, env):
 
 
 def replay(stage, case):
-    if 'laws' in case:
+    if 'odd_reads' in case:
+        check_after_odd_reads(case)
+    elif 'laws' in case:
         check_map_laws()
     elif 'zone' in case and 'utc' in case:
         check_mapped(case)
